@@ -361,6 +361,7 @@ pub fn run_concurrent(case: &C10Case, hist: &mut BTreeMap<String, u64>) -> Resul
                     }
                     ctl.harness_point(crate::dsched::PT_HARNESS);
                     commit.commit(st.clone());
+                    ctl.note(200, 0, 0);
                     ctl.harness_point(crate::dsched::PT_HARNESS);
                 }
                 if det {
